@@ -147,7 +147,7 @@ func allChecks() []CheckSpec {
 						c.MaxWallS = 2400
 					}},
 				{Fn: "verifC08CloseAfterRestart", Lemma: "Close after a Restart that cancelled a gathering cycle at any explored moment of it: Restart returns nil, Close still waits for the cancelled cycle — once it has returned that cycle opens no socket, every socket it opened is closed and no goroutine of it is left; same finality clauses",
-					Bounds: "one IPv4 interface, host candidates only, socket opening gated (released by a helper goroutine as late as possible — when nothing else can move — or after 0..1 hand-overs; thorough: 0..4, or ungated); GatherCandidates; 0..1 (thorough 0..3) hand-overs; Restart; 0..3 (thorough 0..7) hand-overs; Close or GracefulClose; " + c08Common, MustReach: []string{"closed", "slow-network", "socket-opened-before-close", "done"},
+					Bounds: "one IPv4 interface, host candidates only, socket opening gated (released by a helper goroutine as late as possible — when nothing else can move — or after 0..1 hand-overs; thorough: 0..2, or ungated); GatherCandidates; 0..1 (thorough 0..2) hand-overs; Restart; 0..3 (thorough 0..7) hand-overs; Close or GracefulClose; " + c08Common, MustReach: []string{"closed", "slow-network", "socket-opened-before-close", "done"},
 					Cfg: func(c *HarnessCfg, tier int) {
 						c.GoPolicy = "explore"
 						c.ContextBound = 1
@@ -156,7 +156,7 @@ func allChecks() []CheckSpec {
 						c.MaxWallS = 2400
 					}},
 				{Fn: "verifC08CloseAfterRegather", Lemma: "Close while two gathering cycles are alive (GatherCandidates; Restart cancels it while it is busy in the network; GatherCandidates again; Close): the teardown waits for both — once Close has returned neither cycle opens a socket, every opened socket is closed, no goroutine is left; same finality clauses",
-					Bounds: "one IPv4 interface, host candidates only, the first socket opening gated (released by a helper goroutine as late as possible — when nothing else can move — or at once; thorough: also after 1..4 hand-overs); 1 (thorough 1..2) hand-overs before Restart; 0..3 (thorough 0..7) before Close or GracefulClose; " + c08Common, MustReach: []string{"closed", "done"},
+					Bounds: "one IPv4 interface, host candidates only, the first socket opening gated (released by a helper goroutine as late as possible — when nothing else can move — or at once; thorough: also after 1 hand-over); 1 (thorough 1..2) hand-overs before Restart; 0..3 (thorough 0..7) before Close or GracefulClose; " + c08Common, MustReach: []string{"closed", "done"},
 					Cfg: func(c *HarnessCfg, tier int) {
 						c.GoPolicy = "explore"
 						c.ContextBound = 1
